@@ -272,7 +272,9 @@ def l1_config_of(hcfg):
     else:
         tpl = []
         for t in hcfg["reqs"]:
-            d = dict(DEF_TPL, kind=t["kind"], num=t["num"], nc=t.get("nc", 1), gname=t.get("gname") or "", notcoro=bool(t.get("notcoro", False)))
+            # (in the model "" stands for "no explicit name": an explicit empty name is just another explicit name there)
+            d = dict(DEF_TPL, kind=t["kind"], num=t["num"], nc=t.get("nc", 1), gname="<empty>" if t.get("gname") == "" else (t.get("gname") or ""),
+                     notcoro=bool(t.get("notcoro", False)))
             d.update(plan(t))
             tpl.append(d)
         pl = dict(DEF_PLAN, bad=set())
